@@ -581,6 +581,9 @@ func (fr *Frame) execFor(s *State, x *ast.ForStmt, label string) *State {
 	}
 	spec, ord := fr.loopSpec(x)
 	bodyPos := x.Body.Lbrace + 1
+	if spec != nil && !fr.loopSpecUsable(s, spec, bodyPos, nil, ord) {
+		return fr.unrollFor(s, x, label)
+	}
 	// invariant on entry
 	if spec != nil {
 		for i, inv := range spec.Invariants {
@@ -706,6 +709,9 @@ func (fr *Frame) execRange(s *State, x *ast.RangeStmt, label string) *State {
 			m[keyName] = &Val{T: intT, S: k}
 		}
 		return m
+	}
+	if spec != nil && !isInt && !isString && !fr.loopSpecUsable(s, spec, bodyPos, extra("0"), ord) {
+		return fr.unrollRange(s, x, label, coll, n, keyObj, valObj, define)
 	}
 	if spec != nil {
 		for i, inv := range spec.Invariants {
@@ -935,4 +941,97 @@ func (fr *Frame) execRangeLiteral(s *State, x *ast.RangeStmt, cl *ast.CompositeL
 		outs = append(outs, cur)
 	}
 	return mergeAll(outs), true
+}
+
+const unrollBound = 4
+const unrollBoundFor = 34
+
+// loopSpecUsable: do all clauses of the loop's specification still evaluate in the current source? A clause that
+// names a variable that no longer exists (the loop was rewritten) makes the specification stale.
+func (fr *Frame) loopSpecUsable(s *State, spec *LoopSpec, pos token.Pos, extra map[string]*Val, ord int) bool {
+	cls := append([]*Clause{}, spec.Invariants...)
+	if spec.Decreases != nil {
+		cls = append(cls, spec.Decreases)
+	}
+	for _, c := range cls {
+		var side []string
+		env := fr.specEnvAt(s.clone(), pos, extra)
+		env.side = &side
+		env.evalBool(c.E)
+		if env.err != nil {
+			fr.vc.stale = append(fr.vc.stale, fmt.Sprintf("loop %d of %s: %v", ord, fr.vc.fn, env.err))
+			fr.eng.staleLoops = append(fr.eng.staleLoops, fmt.Sprintf("%s loop %d: %v (bounded fallback: for loops unrolled %d times, range loops %d times)", fr.vc.fn, ord, env.err, unrollBoundFor, unrollBound))
+			return false
+		}
+	}
+	return true
+}
+
+// unrollFor executes a for loop exactly for up to unrollBound iterations; longer executions are cut (assumed
+// not to happen). Used only when the loop's invariants are stale: a bounded stand-in, never counted as proof.
+func (fr *Frame) unrollFor(s *State, x *ast.ForStmt, label string) *State {
+	var outs []*State
+	cur := s
+	// counting loops with small constant bounds (e.g. "at most 32 anchors") are covered completely
+	for it := 0; it < unrollBoundFor && cur != nil; it++ {
+		sb := cur
+		if x.Cond != nil {
+			c := fr.eval(cur, x.Cond)
+			outs = append(outs, cur.fork(not(c.S)))
+			sb = cur.fork(c.S)
+		}
+		lc := fr.pushLoop(label, false)
+		end := fr.execBlock(sb, x.Body.List)
+		fr.popLoop()
+		outs = append(outs, lc.breaks...)
+		cont := mergeAll(append([]*State{end}, lc.continues...))
+		if cont != nil && x.Post != nil {
+			cont = fr.execStmt(cont, x.Post, "")
+		}
+		cur = cont
+	}
+	if cur != nil && x.Cond != nil {
+		c := fr.eval(cur, x.Cond)
+		outs = append(outs, cur.fork(not(c.S)))
+	}
+	return mergeAll(outs)
+}
+
+func (fr *Frame) unrollRange(s *State, x *ast.RangeStmt, label string, coll *Val, n string, keyObj, valObj *types.Var, define bool) *State {
+	var outs []*State
+	cur := s
+	for it := 0; it < unrollBound && cur != nil; it++ {
+		k := fmt.Sprintf("%d", it)
+		outs = append(outs, cur.fork(fmt.Sprintf("(>= %s %s)", k, n)))
+		sb := cur.fork(fmt.Sprintf("(< %s %s)", k, n))
+		if keyObj != nil {
+			kv := &Val{T: keyObj.Type(), S: k}
+			if define {
+				fr.declVar(sb, keyObj, kv)
+			} else {
+				fr.writeVar(sb, keyObj, kv)
+			}
+		}
+		if x.Value != nil {
+			ev := fr.indexVal(sb, coll, &Val{T: intT, S: k}, x.Pos())
+			if valObj != nil {
+				if define {
+					fr.declVar(sb, valObj, ev)
+				} else {
+					fr.writeVar(sb, valObj, ev)
+				}
+			} else if id, ok := x.Value.(*ast.Ident); !ok || id.Name != "_" {
+				fr.assign(sb, x.Value, ev, x.Pos())
+			}
+		}
+		lc := fr.pushLoop(label, false)
+		end := fr.execBlock(sb, x.Body.List)
+		fr.popLoop()
+		outs = append(outs, lc.breaks...)
+		cur = mergeAll(append([]*State{end}, lc.continues...))
+	}
+	if cur != nil {
+		outs = append(outs, cur.fork(fmt.Sprintf("(>= %d %s)", unrollBound, n)))
+	}
+	return mergeAll(outs)
 }
